@@ -2,6 +2,10 @@ package checks
 
 import (
 	"fmt"
+	"os"
+	"path/filepath"
+	"strconv"
+	"strings"
 	"sync"
 	"time"
 
@@ -250,13 +254,44 @@ func rotationProjects(c *core.Ctx, n int) []*gen.Project {
 				p.Rotation[k].Harv = gen.DayNum(y, 11, 3+r.Intn(20))
 			}
 		}
+		// arm "tight": fixed sowing dates with automatic harvest, and the next crop's sowing date follows the harvest of
+		// the preceding crop within a few days: a pilot run of the project tells the day the spring cereal is taken off
+		// at maturity; its latest harvest date is put on the day after, the sowing date of the following winter crop two
+		// days after (in the domain: the sowing date lies after the latest harvest date of the preceding crop)
+		tight := false
+		if i%8 == 6 && len(p.Rotation) > 1 && c.Replay == "" {
+			p.Cfg.AutoHarv, p.Cfg.AutoSow = 1, 0
+			y, _, _ := gen.YMD(p.Rotation[0].Harv)
+			first := gen.RotEntry{Crop: []string{"SW", "OA"}[r.Intn(2)], Sow: gen.DayNum(y+1, 3, 20+r.Intn(10)), Harv: gen.DayNum(y+1, 9, 20), RexPct: 50}
+			if first.Sow > p.Rotation[0].Harv+20 && gen.DayNum(y+2, 7, 31) < p.Cfg.End-5 {
+				p.Rotation = append(p.Rotation[:1], first)
+				row := gen.DefaultAutoRow(first.Crop)
+				row.Sow1M, row.Sow1D, row.Sow2M, row.Sow2D = 0, 0, 0, 0
+				row.Har2M, row.Har2D = 9, 20
+				p.Automan = []gen.AutoRow{row}
+				p.Till, p.Fert, p.Irr = nil, nil, nil
+				if h := pilotHarvestDay(c, p, 1); h > first.Sow+60 && h < gen.DayNum(y+1, 9, 15) {
+					_, hm, hd := gen.YMD(h + 1)
+					row.Har2M, row.Har2D = hm, hd
+					p.Rotation[1].Harv = h + 1 // the rotation file's dates ascend: harvest date = latest harvest date
+					next := gen.RotEntry{Crop: "WRA", Sow: h + 1 + 1 + r.Intn(2), Harv: gen.DayNum(y+2, 7, 25), RexPct: 50}
+					p.Rotation = append(p.Rotation, next)
+					nrow := gen.DefaultAutoRow("WRA")
+					nrow.Sow1M, nrow.Sow1D, nrow.Sow2M, nrow.Sow2D = 0, 0, 0, 0
+					nrow.Har2M, nrow.Har2D = 7, 31
+					p.Automan = []gen.AutoRow{row, nrow}
+					rows = p.Automan
+					tight = true
+				}
+			}
+		}
 		// several configurations in one project folder (batch line fileExtension=<ext>)
 		if i%4 == 2 && p.Cfg.CropFileFormat != "csv" {
 			p.FileExt = []string{"alt", "v2", "b"}[r.Intn(3)]
 		}
 		// no fixed-date tillage between sowing and (latest) harvest
 		p.Till, p.Fert, p.Irr = nil, nil, nil
-		p.Arms = []string{fmt.Sprintf("autoSow=%d autoHarv=%d autoIrr=%d autoFert=%d crops=%d autorg=%d/%s irrmax0=%v earlyLatest=%v lateRot=%v fileExt=%q", p.Cfg.AutoSow, p.Cfg.AutoHarv, p.Cfg.AutoIrr, p.Cfg.AutoFert, len(p.Rotation)-1, p.Rotation[0].AutOrg, rows[0].OrgTime, p.Cfg.AutoIrr == 1 && (o.Drought || i%3 == 0), earlyLatest, lateRot, p.FileExt)}
+		p.Arms = []string{fmt.Sprintf("autoSow=%d autoHarv=%d autoIrr=%d autoFert=%d crops=%d autorg=%d/%s irrmax0=%v earlyLatest=%v lateRot=%v fileExt=%q tight=%v", p.Cfg.AutoSow, p.Cfg.AutoHarv, p.Cfg.AutoIrr, p.Cfg.AutoFert, len(p.Rotation)-1, p.Rotation[0].AutOrg, rows[0].OrgTime, p.Cfg.AutoIrr == 1 && (o.Drought || i%3 == 0), earlyLatest, lateRot, p.FileExt, tight)}
 		ps = append(ps, p)
 	}
 	return ps
@@ -308,4 +343,55 @@ func checkC16(c *core.Ctx) {
 	}
 	c.Distinct = c.TracesOK
 	c.Cover("rule", "one case per generated rotation (automation switch combination cycles through all 16 with the seed)")
+}
+
+// pilotHarvestDay runs the project once without probes and returns the day number on which rotation entry k (1 = first
+// crop after the initial one) was harvested according to the crop result file (0: not found).
+func pilotHarvestDay(c *core.Ctx, p *gen.Project, k int) int {
+	worker, err := c.BuildWorker(false)
+	if err != nil {
+		return 0
+	}
+	q := *p
+	q.Name = p.Name + "_pilot"
+	q.Cfg.ResultFormat, q.Cfg.ResultExt = 1, "csv"
+	q.CropOut = nil
+	root := c.Sub("pilot-" + p.Name)
+	if err := q.Write(root, paramSrc); err != nil {
+		return 0
+	}
+	args := []string{"run", "-root", root, "-out", filepath.Join(root, "t.ndjson"), "-id", q.Name, "-skip",
+		"run.config,day.top,day.weather,day.gw,day.inputs,day.evatra,day.steps,sub.pre,sub.water,sub.crop,nitro.mineral,nitro.move,sub.nitro,day.denit,day.end", "--"}
+	args = append(args, q.Args()...)
+	core.Run(root, nil, 2*time.Minute, nil, worker, args...)
+	ents, _ := filepath.Glob(filepath.Join(root, "RESULT_"+q.Name, "C*"))
+	if len(ents) == 0 {
+		return 0
+	}
+	b, err := os.ReadFile(ents[0])
+	if err != nil {
+		return 0
+	}
+	lines := strings.Split(strings.TrimSpace(string(b)), "\n")
+	if len(lines) < 1+k {
+		return 0
+	}
+	hdr := strings.Split(lines[0], ",")
+	f := strings.Split(lines[k], ",")
+	doy, yr := 0, 0
+	for j, h := range hdr {
+		if j >= len(f) {
+			break
+		}
+		switch strings.TrimSpace(h) {
+		case "HarvestDOY":
+			doy, _ = strconv.Atoi(strings.TrimSpace(f[j]))
+		case "HarvestYear":
+			yr, _ = strconv.Atoi(strings.TrimSpace(f[j]))
+		}
+	}
+	if doy == 0 || yr == 0 {
+		return 0
+	}
+	return gen.DayNum(yr, 1, 1) + doy - 1
 }
